@@ -70,7 +70,7 @@ CHECKS["C12"] = dict(
     text="Every occurrence of an equation parameter inside every term (top level and inside each network call) is the batch's row atom iff "
          "its key is batched - for every subset of batched keys, single and system losses, observed parameters; "
          "_get_vmap_in_axes_params/_update_eq_params_dict decided on all key subsets; heterogeneity wrappers replace exactly the declared "
-         "entries with the user function's value at the point, called with the documented arguments. Undefined locals and writes into the "
+         "entries with the user function's value at the point, called with the documented arguments; a hyper-network wrapper's input does not depend on the key order of the parameter dictionary. Undefined locals and writes into the "
          "caller's parameters on these paths are findings of the interpreter.",
     ref="DESIGN.md section 3 (C12)")
 CHECKS["C20"] = dict(
@@ -78,7 +78,7 @@ CHECKS["C20"] = dict(
     text="No function reachable from evaluate/__call__/get_batch/*_batch/dynamic-loss and network wrappers stores into, deletes from or calls "
          "a mutating method on an object reachable from its parameters (alias-aware, fixture-checked), none uses global/nonlocal/wall-clock/"
          "host randomness; evaluating the five loss classes with deep-frozen arguments for every combination of optional batch parts performs "
-         "no write. Equality eager == jit == value_and_grad primal is JAX's contract for pure functions and is not re-decided.",
+         "no write; results do not depend on the insertion order of the user's dictionaries nor on whether a weight is a Python float or a 0-d array (the two representations met eagerly and under jit); generator indices cannot leave int32. Equality eager == jit == value_and_grad primal is JAX's contract for pure functions and is not re-decided.",
     ref="DESIGN.md section 3 (C20)")
 
 CHECKS["C08"] = dict(
@@ -86,7 +86,7 @@ CHECKS["C08"] = dict(
     text="Samplers: requested counts, coordinate i drawn in [min_i, max_i] of its own axis (time, interior d=1..3, parameter ranges); border "
          "facets: pinned coordinate/side per facet in the order xmin,xmax,ymin,ymax and free coordinate in its own range, 1-D border [xmin,xmax] "
          "served as (1,1,2); store shapes (nt, n x d, nb//(2d) x d x 2d); grid method: lower bound, upper bound and exact count (a float-step "
-         "arange is reported); batches are dynamic slices of the store with the declared batch shape. Float rounding at the closed ends is not "
+         "arange is reported; on small concrete counts the stored grid is a table of points that must be regularly spaced inside its own closed interval, every point of the product grid once, for dim 1-3); batches are dynamic slices of the store with the declared batch shape; in the space-time batches column 0 holds the times and the other columns the coordinates of the same facet. Float rounding at the closed ends is not "
          "decided.",
     ref="DESIGN.md section 3 (C08)")
 CHECKS["C09"] = dict(
@@ -94,7 +94,7 @@ CHECKS["C09"] = dict(
     text="For every generator kind (times, interior, border, observation indices, parameter samples; with and without the RAR effective "
          "length) one draw equals: reshuffle iff idx + b - n_rows >= 0, reshuffle = weighted row permutation without replacement with a split "
          "key, index reset / advanced by b, batch sliced from the updated store at the updated index, every other field unchanged; plus the "
-         "initial index forces a first reshuffle without int32 overflow. The per-epoch served-once statement over all histories follows from "
+         "initial index and the end index actually compared at the first draw force a first reshuffle without int32 overflow; generators built by their constructors without RAR use the full store whatever start count the caller passed. The per-epoch served-once statement over all histories follows from "
          "this step shape by the index argument in DESIGN.md section 6 and is not model-checked (family limit).",
     ref="DESIGN.md section 3 (C09)")
 CHECKS["C14"] = dict(
@@ -116,7 +116,7 @@ CHECKS["C07"] = dict(
     text="Decides the wiring of ONE iteration for every combination of optional generators / validation / verbosity: next batch of "
          "every generator (appended to the batch), loss and gradient at the current parameters on that batch, optimizer.update(grads, "
          "state, params), apply_updates, histories at index i with post-update tracked parameters, advanced generators and new state "
-         "carried, counter + 1; continuation iff i < n_iter (and no NaN / early stop); the initial carry; the provenance of the nine "
+         "carried, counter + 1; continuation iff i < n_iter (and no NaN / early stop); the initial carry (every generator advanced by the same number of pre-loop draws); the provenance of the nine "
          "returned values; the sharded and jitted get_batch variants agree. Equality of whole histories with a reference loop for all "
          "optimisers / programs / resumed runs needs iterating the step (other families) and is not claimed.",
     ref="DESIGN.md section 3 (C07)")
@@ -149,14 +149,14 @@ CHECKS["C16"] = dict(
     text="One-step structure for ODE / stationary / non-stationary generators: step predicate (i >= start, period counter == "
          "update_every - 1, enough inactive slots in every store), counters after a step / non-step, mask activation covering exactly "
          "start + (J+1) * selected entries per family, trigger_rar = cond(predicate, step, no step), constructor state (mask, counter "
-         "update_every - 1, count 0) kept by init_rar. The schedule over iteration histories follows by induction from these facts and "
+         "update_every - 1, count 0) kept by init_rar; the training loop asks the trigger once per iteration with that iteration's index and the freshly advanced generator. The schedule over iteration histories follows by induction from these facts and "
          "is not mechanised (history quantifier, outside this family).",
     ref="DESIGN.md section 3 (C16)")
 CHECKS["C17"] = dict(
     technique="symbolic evaluation of a refinement step with formula inference of the candidates' squared residuals; store-update and selection terms compared with the specification",
     text="Added points = gather(candidates, indices of the `selected` largest squared residuals of the current network) - argsort tail "
          "(ODE / stationary, single and system losses) or top-k of the time-major candidate grid with row / column recovery by the grid's "
-         "own shape (non-stationary); candidates from the generator's own samplers with requested counts (real samplers exercised for dim "
+         "own shape (non-stationary); after the step the active entries of each mask are the first start + (J+1) * selected of its own family and the step functions are built with the sizes of the right family; candidates from the generator's own samplers with requested counts (real samplers exercised for dim "
          "1 and 2); new points written at start + J * selected of the store's own family; a step requires room in every store it writes. "
          "Interleavings with reshuffles over histories are not explored.",
     ref="DESIGN.md section 3 (C17)")
